@@ -502,9 +502,19 @@ func (d *cfgDynamic) withValue(err *error, opts *options, fn func(value)) {
 }
 
 func (d *cfgDynamic) getValue(opts *options) (value, error) {
-	return opts.parsed.cachedValue(d.id, func() (value, error) {
+	cycles := *opts.cycles
+	v, err := opts.parsed.cachedValue(d.id, func() (value, error) {
 		return d.dyn.getValue(&d.cfgPrimitive, opts)
 	})
+	if *opts.cycles != cycles {
+		// A cyclic reference was detected (and absorbed by a default or a
+		// resolver) while computing v, so v depends on the references that
+		// were under evaluation when it was requested. Do not keep it for
+		// requests from another context, or the result of the call depends on
+		// which setting happens to be evaluated first.
+		delete(opts.parsed, string(d.id))
+	}
+	return v, err
 }
 
 func (d cfgDynamic) canCache() bool {
